@@ -166,6 +166,153 @@ func (g *thrGroup) reconstructStateful(run *mon.Run, signers []int, trusted bool
 	})
 }
 
+// c06CraftedPolynomials: groups whose polynomial is chosen by the harness (any t+1 share values define
+// one) so that, for a given signer order, the Lagrange-weighted terms L_k*S_k of the interpolation
+// coincide (two equal terms, a term equal to the sum of the previous ones) or cancel (opposite terms, a
+// partial sum at infinity). All shares are valid shares of that polynomial, so the promise of the property
+// applies unchanged: every qualifying set reconstructs enc([P(0)]H), statelessly and statefully.
+func c06CraftedPolynomials(run *mon.Run) {
+	type job struct {
+		n, t     int
+		relation string
+		a, b     int // positions in the signer list
+	}
+	var jobs []job
+	for _, nt := range [][2]int{{2, 1}, {3, 1}, {3, 2}, {4, 2}, {4, 3}, {5, 3}, {6, 4}, {9, 4}, {9, 7}, {12, 8}, {20, 9}} {
+		n, t := nt[0], nt[1]
+		if run.Quick() && t > 4 && t != 8 {
+			continue
+		}
+		for a := 0; a <= t; a++ {
+			for b := a + 1; b <= t; b++ {
+				if run.Quick() && t > 3 && (a+b)%3 != 0 {
+					continue
+				}
+				jobs = append(jobs, job{n, t, "equal-terms", a, b})
+				if t >= 2 {
+					jobs = append(jobs, job{n, t, "opposite-terms", a, b})
+				}
+			}
+		}
+		for m := 2; m <= t; m++ {
+			jobs = append(jobs, job{n, t, "term-equals-prefix-sum", 0, m}, job{n, t, "term-cancels-prefix-sum", 0, m})
+		}
+	}
+	var wg sync.WaitGroup
+	sem := make(chan struct{}, 16)
+	for ji, j := range jobs {
+		wg.Add(1)
+		sem <- struct{}{}
+		go func(ji int, j job) {
+			defer wg.Done()
+			defer func() { <-sem }()
+			defer run.Protect("c06 crafted")
+			r := run.Rand(fmt.Sprintf("crafted-%d", ji))
+			for attempt := 0; attempt < 8; attempt++ {
+				signers := r.Perm(j.n)[:j.t+1]
+				xs := make([]int64, j.t+1)
+				for k, sgn := range signers {
+					xs[k] = int64(sgn + 1)
+				}
+				L := make([]*big.Int, j.t+1)
+				for k := range L {
+					unit := make([]*big.Int, j.t+1)
+					for m := range unit {
+						unit[m] = new(big.Int)
+					}
+					unit[k] = big.NewInt(1)
+					L[k] = ref.InterpolateAt(xs, unit, 0)
+				}
+				ys := make([]*big.Int, j.t+1)
+				for k := range ys {
+					ys[k] = randScalar(r)
+				}
+				switch j.relation {
+				case "equal-terms": // L_b*y_b = L_a*y_a
+					ys[j.b] = ref.Fr.Mul(ref.Fr.Mul(L[j.a], ys[j.a]), ref.Fr.Inv(L[j.b]))
+				case "opposite-terms":
+					ys[j.b] = ref.Fr.Neg(ref.Fr.Mul(ref.Fr.Mul(L[j.a], ys[j.a]), ref.Fr.Inv(L[j.b])))
+				default:
+					sum := new(big.Int)
+					for k := 0; k < j.b; k++ {
+						sum = ref.Fr.Add(sum, ref.Fr.Mul(L[k], ys[k]))
+					}
+					v := ref.Fr.Mul(sum, ref.Fr.Inv(L[j.b]))
+					if j.relation == "term-cancels-prefix-sum" {
+						v = ref.Fr.Neg(v)
+					}
+					ys[j.b] = v
+				}
+				p0 := ref.InterpolateAt(xs, ys, 0)
+				all := make([]*big.Int, j.n)
+				okAll := p0.Sign() != 0
+				for i := 0; i < j.n && okAll; i++ {
+					all[i] = ref.InterpolateAt(xs, ys, int64(i+1))
+					okAll = all[i].Sign() != 0
+				}
+				if !okAll {
+					continue // a zero secret or share: draw again
+				}
+				g := &thrGroup{n: j.n, t: j.t, seed: []byte("crafted"), msg: mon.RandBytes(r, 20), tag: "thr-crafted", ks: all, p0: p0}
+				for i := 0; i < j.n; i++ {
+					sk := skFromInt(all[i])
+					g.sks = append(g.sks, sk)
+					g.pks = append(g.pks, sk.PublicKey())
+				}
+				g.gpk = skFromInt(p0).PublicKey()
+				h := crypto.NewExpandMsgXOFKMAC128(g.tag)
+				H, err := hashPoint(g.msg, h, "kmac:"+g.tag)
+				if err != nil {
+					run.Violate("C06:hash-point", err.Error(), nil)
+					return
+				}
+				g.H = H
+				g.E = ref.EncodeG1(ref.E1.Mul(H, p0))
+				for i := range g.sks {
+					sg, err := g.sks[i].Sign(g.msg, h)
+					if err != nil {
+						return
+					}
+					g.share = append(g.share, sg)
+				}
+				label := "crafted-polynomial:" + j.relation
+				g.reconstructStateless(run, signers, label)
+				g.reconstructStateful(run, signers, ji%2 == 0, false, label)
+				// the same set in reversed order and with the two related signers first
+				rev := make([]int, len(signers))
+				for k := range signers {
+					rev[k] = signers[len(signers)-1-k]
+				}
+				g.reconstructStateless(run, rev, label)
+				front := append([]int{signers[j.a], signers[j.b]}, signers...)
+				front = dedupInts(front)
+				g.reconstructStateless(run, front, label)
+				g.reconstructStateful(run, front, ji%2 == 1, false, label)
+				run.Count("crafted-polynomial.groups", 1)
+				run.Shape(fmt.Sprintf("crafted|%d|%d|%s", j.n, j.t, j.relation))
+				if ji < 2 {
+					run.Sample(map[string]any{"crafted_polynomial_relation": j.relation, "n": j.n, "t": j.t, "signers": signers, "positions": []int{j.a, j.b}})
+				}
+				return
+			}
+		}(ji, j)
+	}
+	wg.Wait()
+	run.Require(run.Counter("crafted-polynomial.groups") >= int64(len(jobs)*9/10), "crafted-polynomial groups incomplete")
+}
+
+func dedupInts(xs []int) []int {
+	seen := map[int]bool{}
+	var out []int
+	for _, x := range xs {
+		if !seen[x] {
+			seen[x] = true
+			out = append(out, x)
+		}
+	}
+	return out
+}
+
 func subsetsOfSizeAtLeast(n, min int) [][]int {
 	var out [][]int
 	for mask := 0; mask < 1<<n; mask++ {
@@ -320,6 +467,7 @@ func C06(run *mon.Run) {
 		}(bi, b.n, b.t)
 	}
 	wg.Wait()
+	c06CraftedPolynomials(run)
 	run.Require(run.Counter("small-pairs") == int64(len(pairs)), "not every (n,t) pair with n<=7 completed")
 	for _, p := range []string{"ascending-low", "top-block", "descending", "alternating-low-high", "first-largest", "random"} {
 		run.Require(run.Counter("pattern."+p) > 0, "limb pattern not exercised: "+p)
